@@ -150,6 +150,110 @@ def r(self, body, size):
 """, None),
 ]
 
+# Normal forms that need the call resolver (sa/loader.py, N8-N10): checked on a one-module scratch package.
+LOADER_CASES = [
+    # (id, module source, function, expected source of that function or None for "unchanged")
+    ("N10 fires: filter generator helper in argument position + N4 on list(G)", """
+def _without(pairs, key):
+    for k, v in pairs:
+        if k != key:
+            yield (k, v)
+
+def f(self, key, values):
+    rebuilt = list(_without(self._list, key))
+    rebuilt.extend((key, value) for value in values)
+    return rebuilt
+""", "f", """
+def f(self, key, values):
+    rebuilt = [*((_without__k, _without__v) for _without__k, _without__v in self._list if _without__k != key), *((key, value) for value in values)]
+    return rebuilt
+"""),
+    ("N10 not for a helper with two loops", """
+def _both(a, b):
+    for x in a:
+        yield x
+    for y in b:
+        yield y
+
+def f(self):
+    return list(_both(self.p, self.q))
+""", "f", None),
+    ("N10 not for a call argument with side effects", """
+def _each(xs):
+    for x in xs:
+        yield x
+
+def f(self):
+    return list(_each(self.load()))
+""", "f", None),
+    ("N10 not for a public generator", """
+def each(xs):
+    for x in xs:
+        yield x
+
+def f(self):
+    return list(each(self.items))
+""", "f", None),
+    ("N9 fires: private helper with a tail return at an assignment site", """
+def _double(x):
+    y = x + x
+    return y
+
+def f(a):
+    b = _double(a)
+    return b
+""", "f", """
+def f(a):
+    _double__x = a
+    _double__y = _double__x + _double__x
+    _double__ret = _double__y
+    b = _double__ret
+    return b
+"""),
+    ("N9 not for a decorated helper", """
+import functools
+
+@functools.lru_cache(None)
+def _double(x):
+    return x + x
+
+def f(a):
+    b = _double(a)
+    return b
+""", "f", None),
+]
+
+
+def loader_cases() -> int:
+    import shutil
+    import tempfile
+
+    from sa.loader import Program
+
+    bad = 0
+    for cid, src, fname, want in LOADER_CASES:
+        tmp = tempfile.mkdtemp(prefix="baize_nf_")
+        try:
+            os.makedirs(os.path.join(tmp, "baize"))
+            open(os.path.join(tmp, "baize", "__init__.py"), "w").close()
+            with open(os.path.join(tmp, "baize", "m.py"), "w") as fh:
+                fh.write(textwrap.dedent(src).strip() + "\n")
+            p = Program(tmp)
+            got = ast.unparse(p.func(f"baize.m:{fname}").node)
+            if want is None:
+                tree = ast.parse(textwrap.dedent(src).strip() + "\n")
+                want_src = ast.unparse(next(n for n in tree.body if isinstance(n, ast.FunctionDef) and n.name == fname))
+            else:
+                want_src = ast.unparse(ast.parse(textwrap.dedent(want).strip() + "\n").body[0])
+            if got != want_src:
+                bad += 1
+                print(f"FAIL {cid}\n--- got\n{got}\n--- expected\n{want_src}\n")
+            else:
+                print(f"ok   {cid}")
+        finally:
+            shutil.rmtree(tmp, ignore_errors=True)
+    return bad
+
 
 def main() -> int:
     bad = 0
@@ -162,7 +266,8 @@ def main() -> int:
             print(f"FAIL {cid}\n--- got\n{got}\n--- expected\n{exp}\n")
         else:
             print(f"ok   {cid}")
-    print(f"normal forms: {len(CASES)} cases, {bad} failed")
+    bad += loader_cases()
+    print(f"normal forms: {len(CASES) + len(LOADER_CASES)} cases, {bad} failed")
     return 1 if bad else 0
 
 
